@@ -20,6 +20,8 @@ def in_scope(b):
 
 def run(ctx, rep):
     facts = ctx.facts()
+    import fixtures
+    fixtures.run_controls(rep, ['E5'], lambda: ctx.reload())
     rep.rule('E5', e5_locks.__doc__.strip().split('\n')[0])
     summ = e5_locks.Summaries(facts)
     e5_locks.check_guards(facts, rep, summ, in_scope, 'pivot', 7)
